@@ -9,6 +9,7 @@
 #include <opm/input/eclipse/Deck/DeckKeyword.hpp>
 #include <opm/input/eclipse/Deck/DeckRecord.hpp>
 #include <opm/input/eclipse/Deck/UDAValue.hpp>
+#include <memory>
 #include <opm/input/eclipse/Parser/ErrorGuard.hpp>
 #include <opm/input/eclipse/Parser/InputErrorAction.hpp>
 #include <opm/input/eclipse/Parser/ParseContext.hpp>
@@ -309,9 +310,20 @@ PROBE_CMD(units_kwjson) {
 //   si   = getSIDoubleData()
 //   raw1 = getData<double>()   (after the lazy in-place conversion)
 //   si2  = getSIDoubleData()   (converted again)
+// One Parser used for several decks in turn (request flag shared_parser; reset_parser starts with a new one): keyword
+// and item objects live in the Parser, what they learn from one deck must not leak into the next
+namespace probe_units {
+Opm::Parser& shared_parser(bool reset) {
+    static std::unique_ptr<Opm::Parser> p;
+    if (!p || reset) p = std::make_unique<Opm::Parser>();
+    return *p;
+}
+}
+
 PROBE_CMD(units_deck) {
     const std::string text = jstr(req, "deck");
-    Opm::Parser parser;
+    Opm::Parser local_parser;
+    Opm::Parser& parser = jbool(req, "shared_parser", false) ? probe_units::shared_parser(jbool(req, "reset_parser", false)) : local_parser;
     auto ctx = lenient_context();
     Opm::ErrorGuard errors;
     struct Clear { Opm::ErrorGuard& g; ~Clear() { g.clear(); } } clear{errors};
